@@ -11,10 +11,13 @@
 import Mathlib.Algebra.Order.Field.Basic
 import Mathlib.Tactic.Linarith
 import Rsa.Lemmas.C05
+import Rsa.Lemmas.C05Glue
 
 set_option linter.unusedSectionVars false
 set_option linter.unusedVariables false
 set_option linter.unusedSimpArgs false
+set_option linter.unusedTactic false
+set_option linter.unreachableTactic false
 
 namespace Rsa.Props.C05
 
@@ -752,5 +755,698 @@ theorem default_k_real {K : Type} [Field K] [LinearOrder K] [IsStrictOrderedRing
     Rsa.Gen.C05.defaultKPattern, Rsa.Gen.C05.defaultKRdm, Nat.cast_lt]
   refine ⟨?_, ?_, ?_, ?_, ?_, ?_, trivial, trivial⟩ <;> (repeat' split) <;>
     first | omega | (exfalso; linarith)
+
+
+/-! ## round 3 — the code as written (derived leaves), index alignment, crossval glue
+
+The definitions of `Rsa.Core.FoldsGlue` are built from leaves that `harness/leaves/C05.py`
+extracts from the current source text (loop bodies, `assert`s, dispatch tests).  The theorems
+below tie them to the model above; a source edit that changes one of these pieces changes a
+leaf and breaks the corresponding proof. -/
+
+open Rsa.Gen.C05 in
+/-- the loop body of each k-fold generator, as written today: the positions tested by fold
+    `g` are the block `[g·⌊n/k⌋, (g+1)·⌊n/k⌋)` plus position `n-(g+1)` for `g < n mod k`; the
+    training positions are the complement (the test positions themselves for `k ≤ 1`, except in
+    `sets_k_fold_rdm`, which has no such case); the loop makes `k` folds; the `assert` accepts
+    exactly `k ≤ n`. -/
+theorem leaf_loop_positions (n k g : Nat) (t : List Nat) :
+    (testIdxC leavesKFold n k g = foldTestIdx n (n / k) (n % k) g ∧
+     testIdxC leavesKFoldRdm n k g = foldTestIdx n (n / k) (n % k) g ∧
+     testIdxC leavesKFoldPattern n k g = foldTestIdx n (n / k) (n % k) g) ∧
+    (trainIdxC leavesKFold n k t = foldTrainIdx n k t ∧
+     trainIdxC leavesKFoldPattern n k t = foldTrainIdx n k t ∧
+     trainIdxC leavesKFoldRdm n k t = (List.range n).filter (fun i => !t.contains i)) ∧
+    (leavesKFold.nFolds k = k ∧ leavesKFoldRdm.nFolds k = k ∧ leavesKFoldPattern.nFolds k = k) ∧
+    ((acceptKFold k n = 1 ↔ k ≤ n) ∧ (acceptKFoldRdm k n = 1 ↔ k ≤ n) ∧
+     (acceptKFoldPattern k n = 1 ↔ k ≤ n)) :=
+  ⟨⟨testIdxC_kFold n k g, testIdxC_kFoldRdm n k g, testIdxC_kFoldPattern n k g⟩,
+   ⟨trainIdxC_kFold n k t, trainIdxC_kFoldPattern n k t, trainIdxC_kFoldRdm n k t⟩,
+   ⟨rfl, rfl, rfl⟩,
+   ⟨guard_eq_one, guard_eq_one, guard_eq_one⟩⟩
+
+open Rsa.Gen.C05 in
+/-- the dispatch tests of `crossval`, `_internal_cv`, `bootstrap_crossval` and the pairing
+    subscripts of `cv_noise_ceiling`, as written today. -/
+theorem leaf_dispatch_tests (a b c d i : Nat) :
+    (cvSkip a b c d = 1 ↔ (a = 0 ∨ b = 0 ∨ c ≤ 2 ∨ d ≤ 2)) ∧
+    (cvLenOk a b = 1 ↔ a = b) ∧ (cvCeilLenOk a b = 1 ↔ a = b) ∧
+    (icvUsesCvNc a b = 1 ↔ (1 < a ∨ 1 < b)) ∧
+    (bootcvGuard a b c d = 1 ↔ (b ≤ a ∧ 3 * d ≤ c)) ∧
+    ncCeilIndex i = i ∧ ncTestIndex i = i ∧
+    (randomNoSplitRdm a = 1 ↔ a = 0) ∧ (randomNoSplitPattern a = 1 ↔ a = 0) ∧
+    randomTestHiRdm a = a ∧ randomTrainLoRdm a = a ∧ randomTrainHiRdm a = a ∧ randomFullRdm a = a ∧
+    randomTestHiPattern a = a ∧ randomTrainLoPattern a = a ∧ randomTrainHiPattern a = a ∧
+    randomFullPattern a = a :=
+  ⟨guard_eq_one, guard_eq_one, guard_eq_one, guard_eq_one, guard_eq_one, rfl, rfl,
+   guard_eq_one, guard_eq_one, rfl, rfl, rfl, rfl, rfl, rfl, rfl, rfl⟩
+
+/-- the three lists `train_set`, `test_set`, `ceil_set`, built separately as the code builds
+    them (`sets_k_fold` deep-copies the inner test sets as ceiling sets and then substitutes the
+    test objects; `sets_k_fold_rdm` aliases `ceil_set = train_set`), are index-aligned: entry `q`
+    of each list belongs to the same fold of the model's fold list, and the ceiling entry is the
+    training RDMs at the test conditions of that same fold. -/
+theorem sets_lists_aligned (o : Obj) (rsel : List Nat) (kr : Nat) (psels : List (List Nat))
+    (kp : Nat) (sel : List Nat) (k : Nat) :
+    ((kFoldSets o rsel kr psels kp).trains
+        = ((kFoldV rsel kr psels kp).map (realize o)).map (·.train) ∧
+     (kFoldSets o rsel kr psels kp).tests
+        = ((kFoldV rsel kr psels kp).map (realize o)).map (·.test) ∧
+     (kFoldSets o rsel kr psels kp).ceils.map (List.map some)
+        = some (((kFoldV rsel kr psels kp).map (realize o)).map (·.ceil))) ∧
+    ((kFoldRdmSets o sel k).trains = ((kFoldRdmV sel k).map (realize o)).map (·.train) ∧
+     (kFoldRdmSets o sel k).tests = ((kFoldRdmV sel k).map (realize o)).map (·.test) ∧
+     (kFoldRdmSets o sel k).ceils.map (List.map some)
+        = some (((kFoldRdmV sel k).map (realize o)).map (·.ceil))) ∧
+    ((kFoldPatternSets o none sel k).trains
+        = ((kFoldPatternV sel k).map (realize o)).map (·.train) ∧
+     (kFoldPatternSets o none sel k).tests
+        = ((kFoldPatternV sel k).map (realize o)).map (·.test) ∧
+     (kFoldPatternSets o none sel k).ceils = none ∧
+     ∀ f ∈ (kFoldPatternV sel k).map (realize o), f.ceil = none) := by
+  refine ⟨?_, ?_, ?_⟩
+  · obtain ⟨h1, h2, h3⟩ := kFoldSets_eq o rsel kr psels kp
+    refine ⟨h1, h2, ?_⟩
+    rw [h3]
+    simp only [Option.map_some, List.map_map, Option.some.injEq]
+    apply List.map_congr_left
+    intro vf hvf
+    obtain ⟨g, h, ps, _, _, _, rfl⟩ := (kfold_both_mem rsel kr psels kp vf).1 hvf
+    simp [realize]
+  · obtain ⟨h1, h2, h3⟩ := kFoldRdmSets_eq o sel k
+    refine ⟨h1, h2, ?_⟩
+    rw [h3, h1]
+    simp only [Option.map_some, List.map_map, Option.some.injEq]
+    apply List.map_congr_left
+    intro vf hvf
+    simp only [kFoldRdmV, List.mem_map] at hvf
+    obtain ⟨g, _, rfl⟩ := hvf
+    simp [realize]
+  · obtain ⟨h1, h2, h3⟩ := kFoldPatternSets_folds o sel k
+    refine ⟨h1, h2, h3, ?_⟩
+    intro f hf
+    simp only [kFoldPatternV, List.mem_map] at hf
+    obtain ⟨vf, ⟨g, _, rfl⟩, rfl⟩ := hf
+    simp [realize]
+
+-- non-vacuity: 3 RDM groups in 2 folds × 3 pattern groups in 2 folds; list entry 1 is cell (0, 1)
+example :
+    (kFoldSets exObj [8, 5] 2 [[1, 2, 3], [3, 1, 2]] 2).trains.length = 4 ∧
+    ((kFoldSets exObj [8, 5] 2 [[1, 2, 3], [3, 1, 2]] 2).tests.map (·.pidx)) = [[1, 3], [2], [3, 2], [1]] ∧
+    ((kFoldSets exObj [8, 5] 2 [[1, 2, 3], [3, 1, 2]] 2).ceils.map (List.map (·.rows)))
+      = some [[0, 2], [0, 2], [1], [1]] := by decide
+
+/-- as-coded result (three lists) and model result (one fold list) say the same -/
+def Agree (a : Except Err Sets) (b : Except Err (List Fold)) : Prop :=
+  match a, b with
+  | .ok s, .ok fs =>
+      s.trains = fs.map (·.train) ∧ s.tests = fs.map (·.test) ∧
+      ((s.ceils = none ∧ ∀ f ∈ fs, f.ceil = none) ∨
+       s.ceils.map (List.map some) = some (fs.map (·.ceil)))
+  | .error e, .error e' => e = e'
+  | _, _ => False
+
+open Rsa.Gen.C05 in
+/-- `assert k <= len(select) / 2` (a comparison with a true quotient) accepts exactly
+    `2·k ≤ n`, over the rationals the model computes with and over every ordered field -/
+theorem of_k_accept_iff (k n : Nat) :
+    (acceptOfKPattern ((k : Nat) : Rat) ((n : Nat) : Rat) = 1 ↔ 2 * k ≤ n) ∧
+    (acceptOfKRdm ((k : Nat) : Rat) ((n : Nat) : Rat) = 1 ↔ 2 * k ≤ n) ∧
+    (∀ {K : Type} [Field K] [LinearOrder K] [IsStrictOrderedRing K],
+      (acceptOfKPattern ((k : Nat) : K) ((n : Nat) : K) = 1 ↔ 2 * k ≤ n) ∧
+      (acceptOfKRdm ((k : Nat) : K) ((n : Nat) : K) = 1 ↔ 2 * k ≤ n)) := by
+  have key : ∀ {K : Type} [Field K] [LinearOrder K] [IsStrictOrderedRing K],
+      ((k : K) ≤ (n : K) / ((2 : Nat) : K) ↔ 2 * k ≤ n) := by
+    intro K _ _ _
+    rw [le_div_iff₀ (by norm_num : (0 : K) < ((2 : Nat) : K))]
+    constructor
+    · intro h
+      have : ((k * 2 : Nat) : K) ≤ (n : K) := by push_cast; exact h
+      have := Nat.cast_le.1 this
+      omega
+    · intro h
+      have : ((k * 2 : Nat) : K) ≤ (n : K) := Nat.cast_le.2 (by omega)
+      push_cast at this
+      exact this
+  refine ⟨?_, ?_, ?_⟩
+  · unfold acceptOfKPattern
+    rw [guard_eq_one]
+    exact key (K := Rat)
+  · unfold acceptOfKRdm
+    rw [guard_eq_one]
+    exact key (K := Rat)
+  · intro K _ _ _
+    constructor
+    · unfold acceptOfKPattern
+      rw [guard_eq_one]
+      exact key
+    · unfold acceptOfKRdm
+      rw [guard_eq_one]
+      exact key
+
+/-- the entry points as written (defaults, `assert`s from the source text, the three lists)
+    accept, reject and return exactly what the model's entry points do. -/
+theorem coded_entry_points_agree (o : Obj) (sel rsel : List Nat) (k kr kp : Option Nat)
+    (psels : List (List Nat)) (nPat m : Nat) :
+    Agree (setsKFoldPatternC o sel k) (setsKFoldPattern o sel k) ∧
+    Agree (setsKFoldRdmC o sel k) (setsKFoldRdm o sel k) ∧
+    Agree (setsKFoldC o rsel kr psels nPat kp) (setsKFold o rsel kr psels nPat kp) ∧
+    Agree (setsOfKPatternC o sel m) (setsOfKPattern o sel m) ∧
+    Agree (setsOfKRdmC o sel m) (setsOfKRdm o sel m) := by
+  have aF : ∀ a b, Rsa.Gen.C05.acceptKFold a b = 1 ↔ a ≤ b := fun _ _ => guard_eq_one
+  have aR : ∀ a b, Rsa.Gen.C05.acceptKFoldRdm a b = 1 ↔ a ≤ b := fun _ _ => guard_eq_one
+  have aP : ∀ a b, Rsa.Gen.C05.acceptKFoldPattern a b = 1 ↔ a ≤ b := fun _ _ => guard_eq_one
+  have hP : ∀ k, Agree (setsKFoldPatternC o sel k) (setsKFoldPattern o sel k) := by
+    intro k
+    unfold setsKFoldPatternC setsKFoldPattern
+    simp only
+    generalize kOrDefault k (Rsa.Gen.C05.defaultKPattern sel.length) = k'
+    by_cases h1 : sel.length < k'
+    · have : Rsa.Gen.C05.acceptKFoldPattern k' sel.length ≠ 1 := by
+        rw [Ne]; (first | rw [aF] | rw [aR] | rw [aP]); omega
+      simp [this, h1, Agree]
+    · have : ¬ Rsa.Gen.C05.acceptKFoldPattern k' sel.length ≠ 1 := by
+        rw [Ne]; (first | rw [aF] | rw [aR] | rw [aP]); omega
+      rw [if_neg this, if_neg h1]
+      by_cases h2 : k' = 0
+      · simp [h2, Agree]
+      · rw [if_neg h2, if_neg h2]
+        obtain ⟨a, b, c, d⟩ := (sets_lists_aligned o [] 0 [] 0 sel k').2.2
+        exact ⟨a, b, Or.inl ⟨c, d⟩⟩
+  have hR : ∀ k, Agree (setsKFoldRdmC o sel k) (setsKFoldRdm o sel k) := by
+    intro k
+    unfold setsKFoldRdmC setsKFoldRdm
+    simp only
+    generalize kOrDefault k (Rsa.Gen.C05.defaultKRdm sel.length) = k'
+    by_cases h1 : sel.length < k'
+    · have : Rsa.Gen.C05.acceptKFoldRdm k' sel.length ≠ 1 := by
+        rw [Ne]; (first | rw [aF] | rw [aR] | rw [aP]); omega
+      simp [this, h1, Agree]
+    · have : ¬ Rsa.Gen.C05.acceptKFoldRdm k' sel.length ≠ 1 := by
+        rw [Ne]; (first | rw [aF] | rw [aR] | rw [aP]); omega
+      rw [if_neg this, if_neg h1]
+      by_cases h2 : k' = 0
+      · simp [h2, Agree]
+      · rw [if_neg h2, if_neg h2]
+        obtain ⟨a, b, c⟩ := (sets_lists_aligned o [] 0 [] 0 sel k').2.1
+        exact ⟨a, b, Or.inr c⟩
+  refine ⟨hP k, hR k, ?_, ?_, ?_⟩
+  · unfold setsKFoldC setsKFold
+    simp only
+    generalize kOrDefault kr (Rsa.Gen.C05.defaultKRdm rsel.length) = kr'
+    generalize kOrDefault kp (Rsa.Gen.C05.defaultKPattern nPat) = kp'
+    by_cases h1 : rsel.length < kr'
+    · have : Rsa.Gen.C05.acceptKFold kr' rsel.length ≠ 1 := by
+        rw [Ne]; (first | rw [aF] | rw [aR] | rw [aP]); omega
+      simp [this, h1, Agree]
+    · have : ¬ Rsa.Gen.C05.acceptKFold kr' rsel.length ≠ 1 := by
+        rw [Ne]; (first | rw [aF] | rw [aR] | rw [aP]); omega
+      rw [if_neg this, if_neg h1]
+      by_cases h2 : kr' = 0
+      · simp [h2, Agree]
+      · rw [if_neg h2, if_neg h2]
+        by_cases h3 : nPat < kp'
+        · have : Rsa.Gen.C05.acceptKFoldPattern kp' nPat ≠ 1 := by
+            rw [Ne]; (first | rw [aF] | rw [aR] | rw [aP]); omega
+          simp [this, h3, Agree]
+        · have : ¬ Rsa.Gen.C05.acceptKFoldPattern kp' nPat ≠ 1 := by
+            rw [Ne]; (first | rw [aF] | rw [aR] | rw [aP]); omega
+          rw [if_neg this, if_neg h3]
+          by_cases h4 : kp' = 0
+          · simp [h4, Agree]
+          · rw [if_neg h4, if_neg h4]
+            obtain ⟨a, b, c⟩ := (sets_lists_aligned o rsel kr' psels kp' [] 0).1
+            exact ⟨a, b, Or.inr c⟩
+  · unfold setsOfKPatternC setsOfKPattern
+    by_cases h1 : sel.length < 2 * m
+    · have : Rsa.Gen.C05.acceptOfKPattern ((m : Nat) : Rat) ((sel.length : Nat) : Rat) ≠ 1 := by
+        rw [Ne, (of_k_accept_iff m sel.length).1]; omega
+      simp [this, h1, Agree]
+    · have : ¬ Rsa.Gen.C05.acceptOfKPattern ((m : Nat) : Rat) ((sel.length : Nat) : Rat) ≠ 1 := by
+        rw [Ne, (of_k_accept_iff m sel.length).1]; omega
+      rw [if_neg this, if_neg h1]
+      by_cases h2 : m = 0
+      · simp [h2, Agree]
+      · rw [if_neg h2, if_neg h2]
+        exact hP _
+  · unfold setsOfKRdmC setsOfKRdm
+    by_cases h1 : sel.length < 2 * m
+    · have : Rsa.Gen.C05.acceptOfKRdm ((m : Nat) : Rat) ((sel.length : Nat) : Rat) ≠ 1 := by
+        rw [Ne, (of_k_accept_iff m sel.length).2.1]; omega
+      simp [this, h1, Agree]
+    · have : ¬ Rsa.Gen.C05.acceptOfKRdm ((m : Nat) : Rat) ((sel.length : Nat) : Rat) ≠ 1 := by
+        rw [Ne, (of_k_accept_iff m sel.length).2.1]; omega
+      rw [if_neg this, if_neg h1]
+      by_cases h2 : m = 0
+      · simp [h2, Agree]
+      · rw [if_neg h2, if_neg h2]
+        exact hR _
+
+/-- what `sets_of_k_*` guarantees about group sizes (the docstring promises "groups of k, the
+    first ones k+1"; the code makes `m = ⌊n/k⌋ ≥ 2` folds): every test fold holds `q` or `q+1`
+    groups with `q = ⌊n/m⌋ = k + ⌊(n mod k)/m⌋`, so `k ≤ q` and `2·(q−k) < k`; `q = k` — the
+    docstring's claim — holds exactly when `n mod k < ⌊n/k⌋`. -/
+theorem of_k_group_sizes (n k g : Nat) (hk : 1 ≤ k) (h2 : 2 * k ≤ n) :
+    2 ≤ n / k ∧
+    ((foldTestIdx n (n / (n / k)) (n % (n / k)) g).length = n / (n / k) ∨
+     (foldTestIdx n (n / (n / k)) (n % (n / k)) g).length = n / (n / k) + 1) ∧
+    n / (n / k) = k + (n % k) / (n / k) ∧ k ≤ n / (n / k) ∧ 2 * (n / (n / k) - k) < k ∧
+    (n / (n / k) = k ↔ n % k < n / k) := by
+  have hm : 2 ≤ n / k := (Nat.le_div_iff_mul_le (by omega)).2 h2
+  have hq : n / (n / k) = k + (n % k) / (n / k) := by
+    have h := Nat.mul_add_div (show 0 < n / k by omega) k (n % k)
+    rw [Nat.div_add_mod'] at h
+    exact h
+  have hr : n % k < k := Nat.mod_lt n (by omega)
+  have hlt : (n % k) / (n / k) * 2 ≤ n % k := by
+    calc (n % k) / (n / k) * 2 ≤ (n % k) / (n / k) * (n / k) := Nat.mul_le_mul_left _ hm
+      _ ≤ n % k := Nat.div_mul_le_self _ _
+  refine ⟨hm, (kfold_sizes n (n / k) g g).1, hq, by omega, by omega, ?_⟩
+  rw [hq]
+  constructor
+  · intro h
+    have h0 : (n % k) / (n / k) = 0 := by omega
+    rcases (Nat.div_eq_zero_iff).1 h0 with h | h
+    · omega
+    · exact h
+  · intro h
+    rw [Nat.div_eq_of_lt h]
+    omega
+
+-- the docstring's "k or k+1" fails for 11 groups, k = 4: two folds of 5 and 6 groups
+example : 11 / (11 / 4) = 5 ∧ (List.range 2).map (fun g => (foldTestIdx 11 (11 / 2) (11 % 2) g).length) = [6, 5] := by
+  decide
+-- hypotheses of `of_k_group_sizes`
+example : 1 ≤ 4 ∧ 2 * 4 ≤ 11 := by decide
+
+/-! ### `sets_random`: what the code guarantees about sizes, and its defaults -/
+
+/-- one repetition of `sets_random` as written (positions by `np.arange`, values by plain
+    indexing): for a draw of `n` values and a requested test size `m` it raises `IndexError`
+    exactly when `m > n`; otherwise the test part holds the first `m` values of the shuffle and
+    the training part the other `n − m` (`m = 0`: no split, both hold all `n`); sizes add up. -/
+theorem random_axis_coded (sel : List Nat) (m : Nat) :
+    randomRdmAxisC sel m = (if sel.length < m then .error .index
+      else .ok (if m = 0 then sel else sel.drop m, if m = 0 then sel else sel.take m)) ∧
+    randomPatternAxisC sel m = (if sel.length < m then .error .index
+      else .ok (if m = 0 then sel else sel.drop m, if m = 0 then sel else sel.take m)) ∧
+    (m ≤ sel.length → (sel.take m).length = m ∧ (sel.drop m).length = sel.length - m) :=
+  ⟨randomAxisC_eq sel m, randomAxisC_eq sel m, fun h => by simp [h]⟩
+
+/-- the whole repetition as coded is the model's fold (train, test, ceiling = training RDMs at
+    the test conditions), with `IndexError` exactly when a requested size exceeds the number of
+    groups. -/
+theorem random_coded_eq (o : Obj) (d : List Nat × List Nat) (nr np : Nat) :
+    randomOneC o d nr np =
+      if d.1.length < nr ∨ d.2.length < np then .error .index
+      else .ok ((realize o ((randomV [d] nr np).headD default)).train,
+                (realize o ((randomV [d] nr np).headD default)).test,
+                mkPart o false ((randomV [d] nr np).headD default).rTrain
+                  ((randomV [d] nr np).headD default).pTest) := by
+  unfold randomOneC
+  rw [(random_axis_coded d.1 nr).1, (random_axis_coded d.2 np).2.1]
+  by_cases h1 : d.1.length < nr
+  · simp [h1]
+  · by_cases h2 : d.2.length < np
+    · simp [h1, h2]
+    · simp only [h1, h2, if_false, or_self, randomV, List.map_cons, List.map_nil, List.headD_cons,
+        realize, mkPart]
+
+/-- default test sizes of `sets_random` (`n_rdm`, `n_pattern` = `None`): `⌊n / default_k(n)⌋`,
+    which for `n ≥ 2` groups is at least 1 and at most `⌊n/2⌋`, so both the test and the training
+    side are non-empty and the call is never rejected. -/
+theorem random_default_sizes (n : Nat) (h : 2 ≤ n) :
+    randomDefaultNr n none = n / (Rsa.Gen.C05.defaultKRdm n).toNat ∧
+    randomDefaultNp n none = n / (Rsa.Gen.C05.defaultKPattern n).toNat ∧
+    1 ≤ randomDefaultNr n none ∧ 2 * randomDefaultNr n none ≤ n ∧
+    1 ≤ randomDefaultNp n none ∧ 2 * randomDefaultNp n none ≤ n ∧
+    (∀ m, randomDefaultNr n (some m) = m ∧ randomDefaultNp n (some m) = m) := by
+  have hr := default_k_range n n (Nat.le_refl n)
+  have ha := default_k_accepted n h
+  have e1 : randomDefaultNr n none = n / (Rsa.Gen.C05.defaultKRdm n).toNat := rfl
+  have e2 : randomDefaultNp n none = n / (Rsa.Gen.C05.defaultKPattern n).toNat := rfl
+  have k2r : 2 ≤ (Rsa.Gen.C05.defaultKRdm n).toNat := by omega
+  have k2p : 2 ≤ (Rsa.Gen.C05.defaultKPattern n).toNat := by omega
+  refine ⟨e1, e2, ?_, ?_, ?_, ?_, fun m => ⟨rfl, rfl⟩⟩
+  · rw [e1]; exact Nat.div_pos ha.1 (by omega)
+  · rw [e1]
+    calc 2 * (n / (Rsa.Gen.C05.defaultKRdm n).toNat)
+        ≤ (Rsa.Gen.C05.defaultKRdm n).toNat * (n / (Rsa.Gen.C05.defaultKRdm n).toNat) :=
+          Nat.mul_le_mul_right _ k2r
+      _ ≤ n := Nat.mul_div_le _ _
+  · rw [e2]; exact Nat.div_pos ha.2.1 (by omega)
+  · rw [e2]
+    calc 2 * (n / (Rsa.Gen.C05.defaultKPattern n).toNat)
+        ≤ (Rsa.Gen.C05.defaultKPattern n).toNat * (n / (Rsa.Gen.C05.defaultKPattern n).toNat) :=
+          Nat.mul_le_mul_right _ k2p
+      _ ≤ n := Nat.mul_div_le _ _
+
+-- non-vacuity: a draw of 5 RDM values, 2 tested; 4 pattern values, none split
+example : randomRdmAxisC [4, 0, 3, 1, 2] 2 = .ok ([3, 1, 2], [4, 0]) ∧
+    randomPatternAxisC [2, 0, 3, 1] 0 = .ok ([2, 0, 3, 1], [2, 0, 3, 1]) ∧
+    randomRdmAxisC [4, 0, 3] 4 = .error .index := by decide
+
+/-! ### the two-axis scheme, by list position -/
+
+/-- `sets_k_fold` returns `k_rdm · k_pattern` folds; list position `q` holds the cell
+    (RDM fold `q / k_pattern`, pattern fold `q mod k_pattern`, split of the pattern shuffle drawn
+    for that RDM fold). -/
+theorem kfold_both_indexed (o : Obj) (rsel : List Nat) (kr : Nat) (psels : List (List Nat))
+    (kp : Nat) (hlen : psels.length = kr) :
+    (kFoldV rsel kr psels kp).map (realize o) = (List.range (kr * kp)).map (fun q =>
+      realize o (kFoldCell rsel kr (psels.getD (q / kp) []) kp (q / kp) (q % kp))) ∧
+    ((kFoldV rsel kr psels kp).map (realize o)).length = kr * kp := by
+  rw [kFoldV_indexed rsel kr psels kp hlen, List.map_map]
+  exact ⟨rfl, by simp⟩
+
+/-- item level, by list position: for every shuffle outcome on both axes every (RDM,
+    condition) cell of the data is in the test part of exactly one *list entry* of what
+    `sets_k_fold` returns (entries of `train_set` / `test_set` / `ceil_set` with that index belong
+    together by `sets_lists_aligned`), and the test folds' sizes differ by at most one group on
+    either axis. -/
+theorem sets_k_fold_indexed_once (o : Obj) (rsel : List Nat) (kr : Nat)
+    (psels : List (List Nat)) (kp : Nat)
+    (hr : rsel.Perm (uniq (descList o.nR o.rdesc)))
+    (hlen : psels.length = kr)
+    (hp : ∀ ps ∈ psels, ps.Perm (uniq (descList o.nC o.pdesc)) ∧ kp ≤ ps.length)
+    (hkr : 1 ≤ kr) (hkrn : kr ≤ rsel.length) (hkp : 1 ≤ kp) :
+    (∀ j i, j < o.nR → i < o.nC → ∃! q, q < kr * kp ∧ ∃ f,
+      ((kFoldV rsel kr psels kp).map (realize o))[q]? = some f ∧
+      j ∈ f.test.rows ∧ i ∈ f.test.conds) ∧
+    (∀ q q', q < kr * kp → q' < kr * kp → ∀ vf vf' rt rt' pt pt',
+      (kFoldV rsel kr psels kp)[q]? = some vf → (kFoldV rsel kr psels kp)[q']? = some vf' →
+      vf.rTest = some rt → vf'.rTest = some rt' → vf.pTest = some pt → vf'.pTest = some pt' →
+      rt.length ≤ rt'.length + 1 ∧ pt.length ≤ pt'.length + 1) := by
+  have hidx := (kfold_both_indexed o rsel kr psels kp hlen).1
+  have hcell : ∀ q, q < kr * kp → ((kFoldV rsel kr psels kp).map (realize o))[q]? =
+      some (realize o (kFoldCell rsel kr (psels.getD (q / kp) []) kp (q / kp) (q % kp))) := by
+    intro q hq
+    rw [hidx]
+    simp [hq]
+  have hdiv : ∀ q, q < kr * kp → q / kp < kr := by
+    intro q hq
+    rw [Nat.div_lt_iff_lt_mul (by omega)]
+    exact hq
+  have hgetD : ∀ g, g < kr → psels[g]? = some (psels.getD g []) := by
+    intro g hg
+    rw [List.getD_eq_getElem?_getD, List.getElem?_eq_getElem (by omega)]
+    simp
+  constructor
+  · intro j i hj hi
+    obtain ⟨⟨g, h⟩, ⟨hg, hh, ps, hps, hjm, him⟩, huniq⟩ :=
+      kfold_both_exhaustive_once o rsel kr psels kp hr hlen hp hkr hkrn hkp j i hj hi
+    simp only at hg hh hps hjm him
+    have hq : g * kp + h < kr * kp := by
+      calc g * kp + h < g * kp + kp := by omega
+        _ = (g + 1) * kp := by ring
+        _ ≤ kr * kp := Nat.mul_le_mul_right _ hg
+    have hqd : (g * kp + h) / kp = g := by
+      rw [Nat.mul_comm, Nat.mul_add_div (by omega), Nat.div_eq_of_lt hh, Nat.add_zero]
+    have hqm : (g * kp + h) % kp = h := by
+      rw [Nat.mul_comm, Nat.mul_add_mod, Nat.mod_eq_of_lt hh]
+    have hpsD : psels.getD g [] = ps := by
+      have := hgetD g hg
+      rw [hps] at this
+      exact (Option.some.inj this).symm
+    refine ⟨g * kp + h, ⟨hq, _, hcell _ hq, ?_, ?_⟩, ?_⟩
+    · rw [hqd, hqm, hpsD]; exact hjm
+    · rw [hqd, hqm, hpsD]; exact him
+    · rintro q' ⟨hq', f, hf, hjf, hif⟩
+      rw [hcell q' hq'] at hf
+      have hf' := Option.some.inj hf
+      subst hf'
+      have := huniq (q' / kp, q' % kp)
+        ⟨hdiv q' hq', Nat.mod_lt _ (by omega), psels.getD (q' / kp) [], hgetD _ (hdiv q' hq'),
+          hjf, hif⟩
+      have e1 : q' / kp = g := congrArg Prod.fst this
+      have e2 : q' % kp = h := congrArg Prod.snd this
+      rw [← e1, ← e2, Nat.mul_comm]
+      exact (Nat.div_add_mod q' kp).symm
+  · intro q q' hq hq' vf vf' rt rt' pt pt' hvf hvf' e1 e1' e2 e2'
+    rw [kFoldV_indexed rsel kr psels kp hlen] at hvf hvf'
+    simp only [List.getElem?_map, List.getElem?_range hq, List.getElem?_range hq', Option.map_some,
+      Option.some.injEq] at hvf hvf'
+    subst hvf hvf'
+    simp only [kFoldCell, Option.some.injEq] at e1 e1' e2 e2'
+    subst e1 e1' e2 e2'
+    have hnr : rsel.Nodup := hr.nodup_iff.2 (uniq_nodup _)
+    have hR := (split_vals_partition rsel kr hnr hkr hkrn).1
+    have hg := hdiv q hq
+    have hg' := hdiv q' hq'
+    have hpsm : ∀ g, g < kr → psels.getD g [] ∈ psels := by
+      intro g hg
+      exact List.mem_of_getElem? (hgetD g hg)
+    obtain ⟨hpp, hpk⟩ := hp _ (hpsm _ hg)
+    obtain ⟨hpp', hpk'⟩ := hp _ (hpsm _ hg')
+    have hlen_eq : (psels.getD (q / kp) []).length = (psels.getD (q' / kp) []).length := by
+      rw [hpp.length_eq, hpp'.length_eq]
+    have hP := (split_vals_partition _ kp (hpp.nodup_iff.2 (uniq_nodup _)) hkp hpk).1
+      (q % kp) (Nat.mod_lt _ (by omega))
+    have hP' := (split_vals_partition _ kp (hpp'.nodup_iff.2 (uniq_nodup _)) hkp hpk').1
+      (q' % kp) (Nat.mod_lt _ (by omega))
+    have hA := (hR _ hg).2.1
+    have hA' := (hR _ hg').2.1
+    have hB := hP.2.1
+    have hB' := hP'.2.1
+    have hquot : (psels.getD (q / kp) []).length / kp = (psels.getD (q' / kp) []).length / kp := by
+      rw [hlen_eq]
+    constructor
+    · rcases hA with h | h <;> rcases hA' with h' | h' <;> omega
+    · rcases hB with h | h <;> rcases hB' with h' | h' <;> omega
+
+/-! ### `crossval`, `cv_noise_ceiling`, `_internal_cv`: pairing by index -/
+
+/-- `crossval` as written (`for i, train in enumerate(train_set): test = test_set[i]`, fold-major
+    evaluation, then the transposition to models × folds): it is rejected (`AssertionError`)
+    exactly when the list lengths differ; otherwise entry (model `j`, fold `i`) of the result is
+    `nan` for a skipped fold and else the score of model `j`, fitted on `train_set[i]`, on
+    `test_set[i]` — training and test entry of the *same* index, for every model and fitter. -/
+theorem crossval_pairs_by_index {Θ S : Type} (nan : S) (nModels : Nat) (fit : Nat → Part → Θ)
+    (score : Nat → Θ → Part → S) (trains tests : List Part) (ceilLen : Option Nat) :
+    ((trains.length ≠ tests.length ∨ ∃ c, ceilLen = some c ∧ c ≠ tests.length) →
+      crossvalC nan nModels fit score trains tests ceilLen = .error .assertion) ∧
+    (trains.length = tests.length → (∀ c, ceilLen = some c → c = tests.length) →
+      ∃ ev, crossvalC nan nModels fit score trains tests ceilLen = .ok ev ∧
+        ev.length = nModels ∧
+        ∀ j i, j < nModels → i < trains.length → ∃ row tr te,
+          ev[j]? = some row ∧ row.length = trains.length ∧ trains[i]? = some tr ∧
+          tests[i]? = some te ∧
+          row[i]? = some (if Rsa.Gen.C05.cvSkip tr.rows.length te.rows.length tr.conds.length
+              te.conds.length = 1 then nan else score j (fit j tr) te)) := by
+  constructor
+  · exact crossvalC_rejects nan nModels fit score trains tests ceilLen
+  · intro h hc
+    refine ⟨_, crossvalC_ok nan nModels fit score trains tests ceilLen h hc, by simp, ?_⟩
+    intro j i hj hi
+    have hi2 : i < tests.length := by omega
+    refine ⟨(trains.zip tests).map (fun tt =>
+        if Rsa.Gen.C05.cvSkip tt.1.rows.length tt.2.rows.length tt.1.conds.length
+          tt.2.conds.length = 1 then nan else score j (fit j tt.1) tt.2),
+      trains[i], tests[i], ?_, ?_, List.getElem?_eq_getElem hi,
+      List.getElem?_eq_getElem hi2, ?_⟩
+    · simp [hj]
+    · simp [h]
+    · simp [hi, hi2]
+
+/-- `cv_noise_ceiling` walks through the pairs `(ceil_set[i], test_set[i])`, same index. -/
+theorem cv_noise_ceiling_pairs (ceils tests : List Part) :
+    (ceils.length ≠ tests.length → cvNoisePairsC ceils tests = .error .assertion) ∧
+    (ceils.length = tests.length → cvNoisePairsC ceils tests = .ok (ceils.zip tests)) := by
+  constructor
+  · intro h
+    simp [cvNoisePairsC, h]
+  · exact cvNoisePairsC_eq ceils tests
+
+/-- cross-validated evaluation on the lists `sets_k_fold` returns (as coded): the result has
+    one entry per (model, list position `q`); it is computed from `train_set[q]` and
+    `test_set[q]`, which are the training and the test part of the *same* cell
+    (`q / k_pattern`, `q mod k_pattern`); the ceiling entry `q` is that cell's training RDMs at its
+    test conditions.  Hence (non-interference at the level of what `crossval` returns) entry
+    (model `j`, fold `q`) does not change when the data are altered anywhere outside that
+    cell's training RDMs × training conditions and test RDMs × test conditions — for every
+    model, fitter and score function. -/
+theorem crossval_on_k_fold {α Θ S : Type} (o : Obj) (rsel : List Nat) (kr : Nat)
+    (psels : List (List Nat)) (kp : Nat) (hlen : psels.length = kr)
+    (nan : S) (nModels : Nat) (fit : Nat → List (List α) → List Nat → Θ)
+    (score : Nat → Θ → List Nat → List (List α) → S) (d d' : Nat → Nat → Nat → α) :
+    let s := kFoldSets o rsel kr psels kp
+    let cell := fun q => realize o (kFoldCell rsel kr (psels.getD (q / kp) []) kp (q / kp) (q % kp))
+    let run := fun (e : Nat → Nat → Nat → α) =>
+      crossvalC nan nModels (fun j p => fit j (extractSpec e p) p.pidx)
+        (fun j θ p => score j θ p.pidx (extractSpec e p)) s.trains s.tests (s.ceils.map List.length)
+    (∀ q, q < kr * kp → s.trains[q]? = some (cell q).train ∧ s.tests[q]? = some (cell q).test ∧
+      ∃ cs, s.ceils = some cs ∧ (cs[q]?).map some = some (cell q).ceil) ∧
+    (∃ ev ev', run d = .ok ev ∧ run d' = .ok ev' ∧
+      ∀ j q, j < nModels → q < kr * kp →
+        (∀ r i i', r ∈ (cell q).train.rows → i ∈ (cell q).train.conds →
+          i' ∈ (cell q).train.conds → d r i i' = d' r i i') →
+        (∀ r i i', r ∈ (cell q).test.rows → i ∈ (cell q).test.conds →
+          i' ∈ (cell q).test.conds → d r i i' = d' r i i') →
+        ∃ row row', ev[j]? = some row ∧ ev'[j]? = some row' ∧ row[q]? = row'[q]? ∧
+          (row[q]?).isSome) := by
+  intro s cell run
+  obtain ⟨hT, hE, hC⟩ := (sets_lists_aligned o rsel kr psels kp [] 0).1
+  obtain ⟨hidx, hlenF⟩ := kfold_both_indexed o rsel kr psels kp hlen
+  have htr : s.trains = (List.range (kr * kp)).map (fun q => (cell q).train) := by
+    show (kFoldSets o rsel kr psels kp).trains = _
+    rw [hT, hidx, List.map_map]; rfl
+  have hte : s.tests = (List.range (kr * kp)).map (fun q => (cell q).test) := by
+    show (kFoldSets o rsel kr psels kp).tests = _
+    rw [hE, hidx, List.map_map]; rfl
+  have hltr : s.trains.length = kr * kp := by rw [htr]; simp
+  have hlte : s.tests.length = kr * kp := by rw [hte]; simp
+  obtain ⟨cs, hcs⟩ : ∃ cs, s.ceils = some cs := by
+    cases hsc : s.ceils with
+    | none =>
+      have : (kFoldSets o rsel kr psels kp).ceils = none := hsc
+      rw [this] at hC; simp at hC
+    | some cs => exact ⟨cs, rfl⟩
+  have hcs' : (kFoldSets o rsel kr psels kp).ceils = some cs := hcs
+  have hcm : cs.map some = (List.range (kr * kp)).map (fun q => (cell q).ceil) := by
+    rw [hcs'] at hC
+    simp only [Option.map_some, Option.some.injEq] at hC
+    rw [hC, hidx, List.map_map]; rfl
+  have hlcs : cs.length = kr * kp := by
+    have := congrArg List.length hcm
+    simpa using this
+  constructor
+  · intro q hq
+    refine ⟨by rw [htr]; simp [hq], by rw [hte]; simp [hq], cs, hcs, ?_⟩
+    have := congrArg (fun l => l[q]?) hcm
+    simp only [List.getElem?_map, List.getElem?_range hq, Option.map_some] at this
+    exact this
+  · have hc : ∀ c, s.ceils.map List.length = some c → c = s.tests.length := by
+      intro c hc
+      rw [hcs] at hc
+      simp only [Option.map_some, Option.some.injEq] at hc
+      omega
+    have hlen2 : s.trains.length = s.tests.length := by omega
+    obtain ⟨ev, hev, _, hevc⟩ := (crossval_pairs_by_index nan nModels
+      (fun j p => fit j (extractSpec d p) p.pidx)
+      (fun j θ p => score j θ p.pidx (extractSpec d p)) s.trains s.tests
+      (s.ceils.map List.length)).2 hlen2 hc
+    obtain ⟨ev', hev', _, hevc'⟩ := (crossval_pairs_by_index nan nModels
+      (fun j p => fit j (extractSpec d' p) p.pidx)
+      (fun j θ p => score j θ p.pidx (extractSpec d' p)) s.trains s.tests
+      (s.ceils.map List.length)).2 hlen2 hc
+    refine ⟨ev, ev', hev, hev', ?_⟩
+    intro j q hj hq h1 h2
+    obtain ⟨row, tr, te, hr, _, htrq, hteq, hval⟩ := hevc j q hj (by omega)
+    obtain ⟨row', tr', te', hr', _, htrq', hteq', hval'⟩ := hevc' j q hj (by omega)
+    rw [htrq] at htrq'
+    rw [hteq] at hteq'
+    have e1 := Option.some.inj htrq'
+    have e2 := Option.some.inj hteq'
+    subst e1 e2
+    have etr : tr = (cell q).train := by
+      rw [htr] at htrq; simpa [hq] using htrq.symm
+    have ete : te = (cell q).test := by
+      rw [hte] at hteq; simpa [hq] using hteq.symm
+    refine ⟨row, row', hr, hr', ?_, by rw [hval]; rfl⟩
+    rw [hval, hval']
+    have ea : extractSpec d tr = extractSpec d' tr := by
+      rw [etr]
+      exact trainSet_indep_of_test_only (cell q) d d' h1
+    have eb : extractSpec d te = extractSpec d' te := by
+      rw [ete]
+      exact trainSet_indep_of_test_only ⟨(cell q).test, (cell q).test, none⟩ d d' h2
+    simp only [ea, eb]
+
+/-- `_internal_cv` on a bootstrap sample: after the expansion every training and every test
+    entry of the lists of `sets_k_fold` advertises a `pattern_idx` that is a rearrangement of the
+    descriptor values of the conditions the object holds (prediction rows ↔ data rows one to
+    one, with the bootstrap multiplicities); the ceiling sets are left as generated. -/
+theorem internal_cv_pidx_multiset (o : Obj) (boot rsel : List Nat) (kr : Nat)
+    (psels : List (List Nat)) (kp : Nat)
+    (hb : (descList o.nC o.pdesc).Perm boot)
+    (hp : ∀ ps ∈ psels, ps.Nodup ∧ kp ≤ ps.length) (hkp : 1 ≤ kp) :
+    (∀ p ∈ (expandSets boot (kFoldSets o rsel kr psels kp)).trains,
+      (p.conds.map o.pdesc).Perm p.pidx) ∧
+    (∀ p ∈ (expandSets boot (kFoldSets o rsel kr psels kp)).tests,
+      (p.conds.map o.pdesc).Perm p.pidx) ∧
+    (expandSets boot (kFoldSets o rsel kr psels kp)).ceils = (kFoldSets o rsel kr psels kp).ceils := by
+  obtain ⟨hT, hE, _⟩ := (sets_lists_aligned o rsel kr psels kp [] 0).1
+  have hnd : ∀ ps ∈ psels, ∀ h, h < kp →
+      (splitFold ps kp (ps.length / kp) (ps.length % kp) h).1.Nodup ∧
+      (splitFold ps kp (ps.length / kp) (ps.length % kp) h).2.Nodup := by
+    intro ps hps h hh
+    obtain ⟨hn, hk⟩ := hp ps hps
+    have ht := foldTestIdx_nodup (n := ps.length) hkp hk hh
+    constructor
+    · apply valsAt_nodup hn
+      unfold foldTrainIdx
+      split
+      · exact ht
+      · exact List.Nodup.filter _ List.nodup_range
+    · exact valsAt_nodup hn ht
+  refine ⟨?_, ?_, rfl⟩
+  · intro p hpm
+    simp only [expandSets, List.mem_map] at hpm
+    obtain ⟨p0, hp0, rfl⟩ := hpm
+    rw [hT] at hp0
+    simp only [List.mem_map] at hp0
+    obtain ⟨f, ⟨vf, hvf, rfl⟩, rfl⟩ := hp0
+    obtain ⟨g, h, ps, hg, hh, hps, rfl⟩ := (kfold_both_mem rsel kr psels kp vf).1 hvf
+    have hmem : ps ∈ psels := List.mem_of_getElem? hps
+    exact concat_sampling_matches_object o boot _ hb (hnd ps hmem h hh).1 false
+      (some (splitFold rsel kr (rsel.length / kr) (rsel.length % kr) g).1)
+  · intro p hpm
+    simp only [expandSets, List.mem_map] at hpm
+    obtain ⟨p0, hp0, rfl⟩ := hpm
+    rw [hE] at hp0
+    simp only [List.mem_map] at hp0
+    obtain ⟨f, ⟨vf, hvf, rfl⟩, rfl⟩ := hp0
+    obtain ⟨g, h, ps, hg, hh, hps, rfl⟩ := (kfold_both_mem rsel kr psels kp vf).1 hvf
+    have hmem : ps ∈ psels := List.mem_of_getElem? hps
+    exact concat_sampling_matches_object o boot _ hb (hnd ps hmem h hh).2 false
+      (some (splitFold rsel kr (rsel.length / kr) (rsel.length % kr) g).2)
+
+/-- the guard of `bootstrap_crossval` (`#rdm groups ≥ k_rdm` and `#pattern groups ≥ 3·k_pattern`,
+    as written today) admits only samples that `sets_k_fold` accepts and whose every pattern
+    test fold holds at least three condition groups — so `crossval`, which skips folds with at
+    most two conditions, evaluates every fold of an admitted sample. -/
+theorem bootcv_guard_no_skip (nr kr np kp g : Nat) (hkr : 1 ≤ kr) (hkp : 1 ≤ kp)
+    (h : bootcvRuns nr kr np kp = true) :
+    kr ≤ nr ∧ kp ≤ np ∧ 3 ≤ (foldTestIdx np (np / kp) (np % kp) g).length ∧
+    (internalCvUsesCvNc kr kp = true ↔ (1 < kr ∨ 1 < kp)) := by
+  have h' : Rsa.Gen.C05.bootcvGuard nr kr np kp = 1 := by simpa [bootcvRuns] using h
+  obtain ⟨h1, h2⟩ := (leaf_dispatch_tests nr kr np kp 0).2.2.2.2.1.1 h'
+  have h3 : 3 ≤ np / kp := (Nat.le_div_iff_mul_le (by omega)).2 (by omega)
+  refine ⟨h1, by omega, ?_, ?_⟩
+  · rw [foldTestIdx_length]; omega
+  · simp only [internalCvUsesCvNc, decide_eq_true_eq]
+    exact (leaf_dispatch_tests kr kp 0 0 0).2.2.2.1
+
+-- non-vacuity
+example : bootcvRuns 3 2 7 2 = true ∧ bootcvRuns 3 2 5 2 = false := by decide
+example : (descList exBootObj.nC exBootObj.pdesc).Perm [3, 1, 3, 0, 1] ∧
+    (∀ ps ∈ [[3, 0, 1]], ps.Nodup ∧ 2 ≤ ps.length) ∧
+    ((expandSets [3, 1, 3, 0, 1] (kFoldSets exBootObj [0] 1 [[3, 0, 1]] 2)).tests.map (·.pidx))
+      = [[3, 3, 1, 1], [0]] := by decide
+example : (cvNoisePairsC [⟨[0], [1], [1]⟩, ⟨[1], [2], [2]⟩] [⟨[2], [1], [1]⟩, ⟨[3], [2], [2]⟩]).toOption
+    = some [(⟨[0], [1], [1]⟩, ⟨[2], [1], [1]⟩), (⟨[1], [2], [2]⟩, ⟨[3], [2], [2]⟩)] := by decide
+
+-- non-vacuity of `crossval_pairs_by_index` / `crossval_on_k_fold`: two folds, two "models" whose
+-- score is (model, number of training rows, number of test rows); the second fold has only two
+-- test conditions and is skipped; unequal list lengths are rejected
+example :
+    crossvalC (0, 0, 0) 2 (fun _ p => p.rows.length) (fun j θ p => (j, θ, p.rows.length))
+      [⟨[0, 1], [0, 1, 2], [0, 1, 2]⟩, ⟨[2], [0, 1, 2], [0, 1, 2]⟩]
+      [⟨[2], [3, 4, 5], [3, 4, 5]⟩, ⟨[0, 1], [3, 4], [3, 4]⟩] (some 2)
+      = .ok [[(0, 2, 1), (0, 0, 0)], [(1, 2, 1), (0, 0, 0)]] ∧
+    (crossvalC (0, 0, 0) 2 (fun _ p => p.rows.length) (fun j θ p => (j, θ, p.rows.length))
+      [⟨[0, 1], [0, 1, 2], [0, 1, 2]⟩] [] none).toOption = none := by decide
+-- hypotheses of `sets_k_fold_indexed_once` / `kfold_both_indexed` / `crossval_on_k_fold` are those of
+-- `kfold_both_exhaustive_once` (example above) — here the indexed list itself
+example : ((kFoldV [2, 0, 1] 2 [[1, 0, 2], [2, 1, 0]] 2).map (fun vf => (vf.rTest, vf.pTest)))
+    = [(some [2, 1], some [1, 2]), (some [2, 1], some [0]), (some [0], some [2, 0]), (some [0], some [1])] := by
+  decide
+-- `coded_entry_points_agree`: an accepted and a rejected call; the groups-of-k `assert` on 3 groups
+example : (setsKFoldC exObj [5, 8] (some 2) [[1, 2, 3], [3, 1, 2]] 3 (some 1)).toOption.map
+      (·.trains.length) = some 2 ∧
+    (setsKFoldC exObj [5, 8] (some 3) [] 3 (some 1)).toOption = none := by decide
+example : Rsa.Gen.C05.acceptOfKPattern ((1 : Nat) : Rat) ((3 : Nat) : Rat) = 1 ∧
+    Rsa.Gen.C05.acceptOfKPattern ((2 : Nat) : Rat) ((3 : Nat) : Rat) ≠ 1 :=
+  ⟨(of_k_accept_iff 1 3).1.2 (by decide), fun h => absurd ((of_k_accept_iff 2 3).1.1 h) (by decide)⟩
 
 end Rsa.Props.C05
